@@ -373,7 +373,17 @@ def c18_scopes(ctx):
     c06_9(ctx)
 
 
-RULES = [c18_1, c18_2, c18_3, c18_scopes]
+def c18_vetoes(ctx):
+    ctx.rule('C18.4', 'a statement kind is refused only by its own pattern (which treats blanks and tabs alike)', 5)
+    from rules.shared import no_pre_pattern_veto
+    no_pre_pattern_veto(ctx, 'bespokeasm.assembler.line_object')
+
+def c18_consume(ctx):
+    """Statements written on one line are the statements written on separate lines only if each one removes exactly its own text (C14.4)."""
+    from rules.c14 import c14_4
+    c14_4(ctx)
+
+RULES = [c18_1, c18_2, c18_3, c18_scopes, c18_vetoes, c18_consume]
 
 MUTANTS = [
     V('c18-zone-directive-not-same-line', 'assembler/line_object/factory.py', "                    if isinstance(line_obj, SetMemoryZoneLine):\n                        # statements that follow on the same line are assembled in the zone just selected\n                        current_memzone = line_obj.memory_zone\n", "", 'C18.3'),
